@@ -34,6 +34,9 @@ type simLogger struct {
 var traceLogs = os.Getenv("VERIF_TRACE") != ""
 
 func (l *simLogger) at(level, format string, args []any) {
+	if l.f.K.Free {
+		return
+	}
 	if traceLogs {
 		fmt.Fprintf(os.Stderr, "TRACE %d %s %s\n", l.f.K.Now(), level, safeSprintf(format, args))
 	}
